@@ -12,7 +12,7 @@
      process fuel fl F ..  GlyphOrderWork::exec under option set fl; st_lossy of its result is
                            false when no contour was passed over on the way (see below). *)
 From Coq Require Import List Permutation Arith Bool NArith ZArith QArith Qcanon Qabs Lqa.
-From FV.C12 Require Import Model Ceq Sem Ops Pipeline Range Quant Proofs.
+From FV.C12 Require Import Model Ceq Sem Ops Pipeline Range Locs Quant Proofs.
 Import ListNotations.
 Close Scope Qc_scope.
 Close Scope Q_scope.
@@ -138,6 +138,39 @@ Proof.
 Qed.
 Print Assumptions flatten_preserves_resolve.
 
+(* flatten_preserves_resolve is a statement about one location, and flatten_glyph
+   rewrites a glyph only at the glyph's OWN source locations.  At a location where
+   only a nested composite has a source (a brace layer on `mid` in top = [mid],
+   mid = [a]) the flattened glyph is what interpolation makes of its flattened
+   masters, and that is not what the unflattened glyph resolves to there: with
+   both masters of top and mid equal (mid = a + (65,225)) and mid = a + (65,600) at
+   the intermediate location, the flattened top = [a + (75,225)] resolves to a
+   contour 375 units away from the one of top = [mid + (10,0)].  (Known finding
+   flatten-drops-intermediate-master-of-nested-composite; the harness re-observes
+   it on the real code.) *)
+Theorem flatten_across_locations_refuted :
+  exists (Fmaster Fbrace : qfont) (top top' : qglyph) cs cs',
+    (* top has the same instance at every location; only mid differs at the brace location *)
+    Fmaster (Src 2) = Some top /\ Fbrace (Src 2) = Some top /\ Fmaster (Src 0) = Fbrace (Src 0) /\
+    q_flatten 10 Fmaster top = Some (top', false) /\
+    q_gsem 10 Fbrace top = Some cs /\ q_gsem 10 Fbrace top' = Some cs' /\ ~ ceqs cs cs'.
+Proof.
+  set (a := mk [square] [] true).
+  set (top := mk [] [(Src 1, shift (qz 1) 10 0)] true).
+  set (Fm := font_of [(Src 0, a); (Src 1, mk [] [(Src 0, shift (qz 1) 65 225)] true); (Src 2, top)]).
+  set (Fb := font_of [(Src 0, a); (Src 1, mk [] [(Src 0, shift (qz 1) 65 600)] true); (Src 2, top)]).
+  destruct (q_flatten 10 Fm top) as [[top' d]|] eqn:E; [|vm_compute in E; discriminate].
+  destruct (q_gsem 10 Fb top) as [cs|] eqn:E1; [|vm_compute in E1; discriminate].
+  destruct (q_gsem 10 Fb top') as [cs'|] eqn:E2; [|vm_compute in E, E2; inversion E; subst; vm_compute in E2; discriminate].
+  exists Fm, Fb, top, top', cs, cs'.
+  vm_compute in E. inversion E; subst. vm_compute in E1. inversion E1; subst. vm_compute in E2. inversion E2; subst.
+  repeat split; try reflexivity.
+  intros (m & Hp & Hf).
+  apply Permutation_length_1_inv in Hp. subst m.
+  inversion Hf as [|x y l l' Hxy Hr]; subst. destruct Hxy as [H|H]; vm_compute in H; discriminate.
+Qed.
+Print Assumptions flatten_across_locations_refuted.
+
 (* Hoisting the contours of a mixed glyph into a new component glyph
    (split_glyph / move_contours_to_new_component) under a name that is free. *)
 Theorem split_preserves_resolve : forall P T tid act tovf,
@@ -229,6 +262,32 @@ Proof.
   split; [exact ex_font_ok|split]; [vm_compute; reflexivity|].
   destruct (q_resolve 6 ex_font (Src 3)) as [cs|] eqn:E; [|vm_compute in E; discriminate].
   exists cs; split; auto. vm_compute in E. inversion E; reflexivity.
+Qed.
+
+(* ---- where a decomposed glyph gets its sources ------------------------------------------- *)
+(* collect_component_locations_nested (whose result ensure_composite_defined_at_component_locations
+   turns into sources of the glyph before it is decomposed or inlined) returns exactly the
+   locations of the glyph and of every glyph it refers to through ANY number of levels:
+   a master that exists only deep in the component graph (an intermediate / brace master of
+   a leaf glyph under composites that have none) is never missed, so the decomposed glyph
+   has a source there like the builds that keep the components; and no location is invented. *)
+Theorem decomposition_locations_transitive : forall (L : Type) fuel (F : lfont L) (g : lglyph L) res,
+  collect_component_locations_nested L fuel F g = Some res ->
+  forall l, In l res <->
+    (In l (lg_locs g) \/
+     exists c m gm, In c (lg_comps g) /\ reaches L F c m /\ F m = Some gm /\ In l (lg_locs gm)).
+Proof. exact collect_is_transitive_closure. Qed.
+Print Assumptions decomposition_locations_transitive.
+
+(* outer -> mid -> leaf, only the leaf has the intermediate location 2: it is collected *)
+Example decomposition_locations_nonvacuous :
+  let F := lfont_of [ (Src 0, mkL [0; 4; 2]%Z []); (Src 1, mkL [0; 4]%Z [Src 0]); (Src 2, mkL [0; 4]%Z [Src 1]) ] in
+  collect_component_locations_nested Z 10 F (mkL [0; 4]%Z [Src 1]) = Some [0; 4; 0; 4; 0; 4; 2]%Z
+  /\ reaches Z F (Src 1) (Src 0)
+  /\ locs_cover 10 F (Src 2) [0; 2; 4]%Z = true /\ locs_cover 10 F (Src 2) [0; 4]%Z = false.
+Proof.
+  cbv zeta. repeat split; try reflexivity.
+  eapply r_step; [reflexivity|now left|constructor].
 Qed.
 
 (* ---- what the backend stores ------------------------------------------------------------ *)
